@@ -36,7 +36,11 @@
 //! whatever ends up on MUTABLE storage must pass the overlap check and be injective by brute
 //! force; a pair `from_data_with_strides` accepts must not alias (any storage).  The `cov`
 //! request lists every tensor-returning method found in `$VERIF_REPO/rten-tensor/src/tensor.rs`;
-//! the model answers `all-classified` only if each is in its `apiTable`.
+//! (and, as `mut:<name>`, every `&mut self` method that assigns or mutates `self.layout`); the
+//! model answers `all-classified` only if each is in its `apiTable`.  Tensors that end up on
+//! `Vec` / `&mut [T]` storage are then pushed through in-place layout mutators and `_mut` view
+//! operations (`Reach.viewop`); each resulting mutable layout is an `ov` case that must be
+//! accepted and injective.
 use hcommon::{Args, Out, Rng};
 use rten_tensor::layout::{MutLayout, OverlapPolicy};
 use rten_tensor::storage::{CowData, IntoStorage};
@@ -94,6 +98,9 @@ enum Want<'a> {
     /// layout that `has_capacity` / `append` of an owned tensor accepted (context text): must be
     /// accepted by the overlap check and alias-free
     Expanded(&'a str),
+    /// layout of a tensor / view on MUTABLE storage reached by view operations or in-place layout
+    /// mutations (context text): must be accepted and alias-free
+    Mutable(&'a str),
 }
 
 fn one_ex(out: &mut Out, shape: &[usize], strides: &[usize], want: Want) {
@@ -117,6 +124,16 @@ fn one_ex(out: &mut Out, shape: &[usize], strides: &[usize], want: Want) {
                 }
             } else if let Want::Derived(chain) = want {
                 fail = Some(format!("derived layout rejected: contiguous {chain}"));
+            }
+            if let Want::Mutable(ctx) = want {
+                let inj = brute_injective(shape, strides);
+                if ov || inj == Some(false) {
+                    fail = Some(format!(
+                        "mutable tensor/view with a layout that {}: {ctx}",
+                        if inj == Some(false) { "maps two valid indices to one offset" } else { "the overlap check rejects" }
+                    ));
+                }
+                out.bucket("mutop_layouts");
             }
             if let Want::Expanded(ctx) = want {
                 let inj = brute_injective(shape, strides);
@@ -626,11 +643,13 @@ fn build<'a>(
 /// Conversions applicable to a storage kind (must match `OverlapCtor.convert`).
 fn convs_for(kind: &str) -> &'static [&'static str] {
     match kind {
-        "vec" => &["into_cow", "into_arc", "to_tensor", "clone", "into_shape", "into_contiguous"],
-        "view" => &["to_tensor", "as_cow", "clone", "to_contiguous", "reshaped"],
-        "viewmut" => &["to_tensor"],
-        "cowb" | "cowo" => &["into_owned", "to_tensor"],
-        _ => &["to_tensor", "clone"],
+        "vec" => &[
+            "into_cow", "into_arc", "to_tensor", "clone", "into_shape", "into_contiguous", "into_dyn", "into_permuted",
+        ],
+        "view" => &["to_tensor", "as_cow", "clone", "to_contiguous", "reshaped", "into_dyn", "into_permuted"],
+        "viewmut" => &["to_tensor", "into_dyn", "into_permuted"],
+        "cowb" | "cowo" => &["into_owned", "to_tensor", "into_dyn", "into_permuted"],
+        _ => &["to_tensor", "clone", "into_dyn", "into_permuted"],
     }
 }
 
@@ -664,6 +683,22 @@ fn convert<'a>(t: AnyT<'a>, conv: &str) -> AnyT<'a> {
             AnyT::Vec(t.into_shape(shape.as_slice()))
         }
         ("into_contiguous", AnyT::Vec(t)) => AnyT::Vec(t.into_contiguous().into_inner()),
+        ("into_dyn", AnyT::Vec(t)) => AnyT::Vec(t.into_dyn()),
+        ("into_dyn", AnyT::View(t)) => AnyT::View(t.into_dyn()),
+        ("into_dyn", AnyT::ViewMut(t)) => AnyT::ViewMut(t.into_dyn()),
+        ("into_dyn", AnyT::Cow(t, o)) => AnyT::Cow(t.into_dyn(), o),
+        ("into_dyn", AnyT::Arc(t)) => AnyT::Arc(t.into_dyn()),
+        ("into_permuted", t) => {
+            let n = t.dims().0.len();
+            let rev: Vec<usize> = (0..n).rev().collect();
+            match t {
+                AnyT::Vec(t) => AnyT::Vec(t.into_permuted(rev.as_slice())),
+                AnyT::View(t) => AnyT::View(t.into_permuted(rev.as_slice())),
+                AnyT::ViewMut(t) => AnyT::ViewMut(t.into_permuted(rev.as_slice())),
+                AnyT::Cow(t, o) => AnyT::Cow(t.into_permuted(rev.as_slice()), o),
+                AnyT::Arc(t) => AnyT::Arc(t.into_permuted(rev.as_slice())),
+            }
+        }
         (c, t) => panic!("conversion {c} not applicable to {}", t.kind()),
     }
 }
@@ -782,6 +817,18 @@ fn storage_case(out: &mut Out, rng: &mut Rng) {
     let (sh, st) = t.dims();
     let ans = format!("ok {} {}", t.kind(), dims_text(&sh, &st));
     out.case(&req, &ans, fail.as_deref(), overlapping || n_conv >= 2);
+    // in-place layout mutators and `_mut` views of whatever ended up on mutable storage
+    match &mut t {
+        AnyT::Vec(x) => {
+            let mut path = format!("{req} ::");
+            for _ in 0..rng.usize_below(4) {
+                mutate_in_place(out, rng, x, &mut path);
+            }
+            mut_view_probe(out, rng, &mut x.view_mut(), &path);
+        }
+        AnyT::ViewMut(x) => mut_view_probe(out, rng, x, &format!("{req} ::")),
+        _ => {}
+    }
     // terminal probe: AsView::as_cow (borrowed) -> into_owned is a copy
     let copy = match &t {
         AnyT::Vec(x) => x.as_cow().into_owned(),
@@ -793,6 +840,127 @@ fn storage_case(out: &mut Out, rng: &mut Rng) {
     let c = AnyT::Vec(copy);
     if let Some(m) = storage_oracle(&c, &format!("{req} | as_cow | into_owned"), false) {
         out.case("# storage", "probe", Some(&m), false);
+    }
+}
+
+/// One in-place layout mutation of an owned tensor (`permute`, `transpose`, `move_axis`,
+/// `insert_axis`, `remove_axis`, `merge_axes`, `clip_dim`); its new layout is a case.
+fn mutate_in_place(out: &mut Out, rng: &mut Rng, x: &mut Tensor<u32>, path: &mut String) {
+    let nd = x.ndim();
+    let sh: Vec<usize> = x.shape().to_vec();
+    let name = match rng.below(7) {
+        0 if nd > 0 => {
+            let mut perm: Vec<usize> = (0..nd).collect();
+            rng.shuffle(&mut perm);
+            x.permute(perm.as_slice());
+            format!("permute {}", hcommon::join(perm.iter(), ","))
+        }
+        1 => {
+            x.transpose();
+            "transpose".into()
+        }
+        2 if nd > 0 => {
+            let (a, b) = (rng.usize_below(nd), rng.usize_below(nd));
+            x.move_axis(a, b);
+            format!("move_axis {a} {b}")
+        }
+        3 => {
+            let k = rng.usize_below(nd + 1);
+            x.insert_axis(k);
+            format!("insert_axis {k}")
+        }
+        4 => {
+            let units: Vec<usize> = (0..nd).filter(|&d| sh[d] == 1).collect();
+            if units.is_empty() {
+                return;
+            }
+            let k = *rng.pick(&units);
+            x.remove_axis(k);
+            format!("remove_axis {k}")
+        }
+        5 => {
+            x.merge_axes();
+            "merge_axes".into()
+        }
+        6 if nd > 0 => {
+            let a = rng.usize_below(nd);
+            let (s0, e0) = pick_range(rng, sh[a]);
+            x.clip_dim(a, s0..e0);
+            format!("clip_dim {a} {s0}..{e0}")
+        }
+        _ => return,
+    };
+    out.bucket(&format!("mutop_{}", name.split(' ').next().unwrap()));
+    *path += " ";
+    *path += &name;
+    *path += ";";
+    one_ex(out, x.shape().as_ref(), x.strides().as_ref(), Want::Mutable(path));
+}
+
+/// One `_mut` view operation on a mutable view; the resulting mutable view's layout is a case.
+fn mut_view_probe(out: &mut Out, rng: &mut Rng, v: &mut TensorViewMut<u32>, path: &str) {
+    let nd = v.ndim();
+    let sh: Vec<usize> = v.shape().to_vec();
+    let mut emit = |out: &mut Out, name: String, shape: Vec<usize>, strides: Vec<usize>| {
+        out.bucket(&format!("mutop_{}", name.split(' ').next().unwrap()));
+        let ctx = format!("{path} {name}");
+        one_ex(out, &shape, &strides, Want::Mutable(&ctx));
+    };
+    match rng.below(7) {
+        0 if nd > 0 => {
+            let mut items = Vec::new();
+            let mut txt = String::from("slice_mut");
+            for d in 0..1 + rng.usize_below(nd) {
+                if sh[d] > 0 && rng.chance(1, 5) {
+                    let i = rng.usize_below(sh[d]) as isize;
+                    items.push(SliceItem::Index(i));
+                    txt += &format!(" i:{i}");
+                } else {
+                    let (a, b) = pick_range(rng, sh[d]);
+                    let step = 1 + rng.usize_below(3) as isize;
+                    items.push(SliceItem::Range(SliceRange::new(a as isize, Some(b as isize), step)));
+                    txt += &format!(" r:{a}:{b}:{step}");
+                }
+            }
+            if let Ok(w) = v.try_slice_mut(items.as_slice()) {
+                emit(out, txt, w.shape().to_vec(), w.strides().to_vec());
+            }
+        }
+        1 if nd > 0 => {
+            let mut perm: Vec<usize> = (0..nd).collect();
+            rng.shuffle(&mut perm);
+            let w = v.permuted_mut(perm.as_slice());
+            emit(out, format!("permuted_mut {}", hcommon::join(perm.iter(), ",")), w.shape().to_vec(), w.strides().to_vec());
+        }
+        2 if nd > 0 => {
+            let a = rng.usize_below(nd);
+            if sh[a] > 0 {
+                let i = rng.usize_below(sh[a]);
+                let w = v.index_axis_mut(a, i);
+                emit(out, format!("index_axis_mut {a} {i}"), w.shape().to_vec(), w.strides().to_vec());
+            }
+        }
+        3 if nd > 0 => {
+            let a = rng.usize_below(nd);
+            let mid = rng.usize_below(sh[a] + 1);
+            let (l, r) = v.view_mut().split_at_mut(a, mid);
+            emit(out, format!("split_at_mut {a} {mid} L"), l.shape().to_vec(), l.strides().to_vec());
+            emit(out, format!("split_at_mut {a} {mid} R"), r.shape().to_vec(), r.strides().to_vec());
+        }
+        4 if nd > 0 => {
+            let a = rng.usize_below(nd);
+            let (s0, e0) = pick_range(rng, sh[a]);
+            let w = v.slice_axis_mut(a, s0..e0);
+            emit(out, format!("slice_axis_mut {a} {s0}..{e0}"), w.shape().to_vec(), w.strides().to_vec());
+        }
+        5 if nd == 2 => {
+            let w = v.nd_view_mut::<2>();
+            emit(out, "nd_view_mut".into(), w.shape().to_vec(), w.strides().to_vec());
+        }
+        _ => {
+            let w = v.view_mut();
+            emit(out, "view_mut".into(), w.shape().to_vec(), w.strides().to_vec());
+        }
     }
 }
 
@@ -829,6 +997,50 @@ fn api_coverage(out: &mut Out) {
             .any(|(k, _)| !ret[k + 4..].starts_with("::") && !ret[..k].ends_with(|c: char| c.is_ascii_alphanumeric()));
         if ret.contains("TensorBase<") || ret.contains("Contiguous<") || ret.contains("WeaklyCheckedView<") || plain_self {
             names.push(name);
+        }
+    }
+    // `&mut self` methods that assign or mutate `self.layout`
+    const MUTATORS: [&str; 8] = [
+        "permute(", "transpose(", "move_axis(", "insert_axis(", "remove_axis(", "merge_axes(", "resize_dim(",
+        "remove_axis_of_any_size(",
+    ];
+    for i in 0..lines.len() {
+        let raw = lines[i];
+        let indent: String = raw.chars().take_while(|c| *c == ' ').collect();
+        let l = raw.trim_start();
+        let l = l.strip_prefix("pub(crate) ").or_else(|| l.strip_prefix("pub ")).unwrap_or(l);
+        let l = l.strip_prefix("unsafe ").unwrap_or(l);
+        let Some(rest) = l.strip_prefix("fn ") else { continue };
+        let name: String = rest.chars().take_while(|c| c.is_ascii_alphanumeric() || *c == '_').collect();
+        let mut j = i;
+        let mut sig = String::new();
+        loop {
+            sig += lines[j];
+            if lines[j].contains('{') || lines[j].trim_end().ends_with(';') || j >= i + 40 || j + 1 >= lines.len() {
+                break;
+            }
+            j += 1;
+        }
+        if !sig.split('{').next().unwrap_or("").contains("&mut self") || !lines[j].contains('{') {
+            continue;
+        }
+        let close = format!("{indent}}}");
+        let mut k = j + 1;
+        let mut hit = false;
+        while k < lines.len() && lines[k] != close {
+            let b = lines[k];
+            if let Some(pos) = b.find("self.layout") {
+                let after = b[pos + "self.layout".len()..].trim_start();
+                if (after.starts_with('=') && !after.starts_with("=="))
+                    || MUTATORS.iter().any(|m| after.strip_prefix('.').is_some_and(|a| a.starts_with(m)))
+                {
+                    hit = true;
+                }
+            }
+            k += 1;
+        }
+        if hit {
+            names.push(format!("mut:{name}"));
         }
     }
     names.sort();
@@ -957,5 +1169,5 @@ fn run(args: &Args) {
             out.case("# storage", "panic", Some(&format!("storage conversion panicked: {m}")), false);
         }
     }
-    out.finish("exhaustive (size,stride) lists of rank<=3 with sizes 0..3 and small strides, plus random layouts derived from contiguous ones by permutation, stepping, broadcasting, stride perturbation, arbitrary strides; plus (completeness oracle) every intermediate view of random chains of 1..6 (thorough 1..10) real TensorView operations (permuted, transposed, move_axis, slice with ranges of step 1..4 / indices incl. negative spellings, slice_axis, index_axis, split_at, insert_axis, remove_axis, squeezed, merge_axes) applied to contiguous tensors of rank 0..5 (thorough 0..6), sizes 0..9, which must all be accepted; plus (capacity expansion) owned tensors of rank 1..4 (thorough 1..5) with spare capacity 0..200 built by from_data_with_strides (growth axis of size 0/1 with zero / unit / dominating / just-short / duplicate / random stride), by transposing / permuting / move_axis-ing from_data tensors with unit dims, and by with_capacity (optionally permuted), probed with has_capacity(axis, size+0..4) and append of zero-stride views, where every layout has_capacity or append accepts must pass the overlap check and brute-force injectivity; plus (storage family) from_data_with_strides / from_slice_with_strides / from_storage_and_layout (dynamic rank 1..3 and NdLayout<2>) over Vec, &[T], &mut [T], Cow borrowed/owned and Arc<Vec> storage with contiguous / permuted-stride / stepped / broadcast / duplicate-stride / arbitrary layouts (sizes 1..4, exact / slack / short storage), followed by 0..4 storage conversions (into_cow, into_arc, into_owned, to_tensor, as_cow, clone, to_contiguous, reshaped, into_shape, into_contiguous), where every tensor on mutable storage must pass the overlap check and brute-force injectivity and from_data_with_strides must not accept an aliasing pair on any storage; one coverage request listing the tensor-returning methods of tensor.rs; non-trivial = rank>=2, no empty dim, some dim >1; distinct by request text");
+    out.finish("exhaustive (size,stride) lists of rank<=3 with sizes 0..3 and small strides, plus random layouts derived from contiguous ones by permutation, stepping, broadcasting, stride perturbation, arbitrary strides; plus (completeness oracle) every intermediate view of random chains of 1..6 (thorough 1..10) real TensorView operations (permuted, transposed, move_axis, slice with ranges of step 1..4 / indices incl. negative spellings, slice_axis, index_axis, split_at, insert_axis, remove_axis, squeezed, merge_axes) applied to contiguous tensors of rank 0..5 (thorough 0..6), sizes 0..9, which must all be accepted; plus (capacity expansion) owned tensors of rank 1..4 (thorough 1..5) with spare capacity 0..200 built by from_data_with_strides (growth axis of size 0/1 with zero / unit / dominating / just-short / duplicate / random stride), by transposing / permuting / move_axis-ing from_data tensors with unit dims, and by with_capacity (optionally permuted), probed with has_capacity(axis, size+0..4) and append of zero-stride views, where every layout has_capacity or append accepts must pass the overlap check and brute-force injectivity; plus (storage family) from_data_with_strides / from_slice_with_strides / from_storage_and_layout (dynamic rank 1..3 and NdLayout<2>) over Vec, &[T], &mut [T], Cow borrowed/owned and Arc<Vec> storage with contiguous / permuted-stride / stepped / broadcast / duplicate-stride / arbitrary layouts (sizes 1..4, exact / slack / short storage), followed by 0..4 storage conversions (into_cow, into_arc, into_owned, to_tensor, as_cow, clone, to_contiguous, reshaped, into_shape, into_contiguous), where every tensor on mutable storage must pass the overlap check and brute-force injectivity and from_data_with_strides must not accept an aliasing pair on any storage; then 0..3 in-place layout mutations (permute, transpose, move_axis, insert_axis, remove_axis, merge_axes, clip_dim) and one _mut view operation (slice_mut, permuted_mut, index_axis_mut, split_at_mut, slice_axis_mut, nd_view_mut, view_mut) on whatever ended up on Vec / &mut storage, each resulting mutable layout being a case that must be accepted and injective; one coverage request listing the tensor-returning methods and the &mut self layout mutators of tensor.rs; non-trivial = rank>=2, no empty dim, some dim >1; distinct by request text");
 }
